@@ -5,6 +5,7 @@ mod c12;
 mod c14;
 mod c15;
 mod c16;
+mod c18;
 mod corescn;
 mod model;
 mod ops;
@@ -143,6 +144,35 @@ fn main() {
                     "JSON persistence (the default mode); sockets and the election are not part of this check (C19)",
                 ],
                 "every leader history (connect/disconnect, writes, deletes, registrations of two clients) with the follower joining at every position, persistence ticks at every position and the leader lost at every quiescent position, up to the completed depth; a promotion ends a history; distinct_nontrivial counts distinct (step kind, outcome) pairs",
+            );
+            std::fs::remove_dir_all(persist::scratch_root()).ok();
+            code
+        }
+        "C18" => {
+            let code = run_scenarios(
+                "C18",
+                &tier,
+                "fault_enumeration",
+                vec![
+                    (
+                        "crash".into(),
+                        Box::new(c18::scenario(known.open_for("C18"), false)),
+                        Tiered { quick: lim(4, 3, false, 50), thorough: lim(5, 4, false, 900) },
+                        "tree",
+                    ),
+                    (
+                        "clean-stop".into(),
+                        Box::new(c18::scenario(known.open_for("C18"), true)),
+                        Tiered { quick: lim(3, 2, false, 30), thorough: lim(4, 3, false, 400) },
+                        "tree",
+                    ),
+                ],
+                &[
+                    "crash model: the process disappears between two polls of the runtime (the whole tokio runtime of the first life is dropped): queued, uncommitted store actions are lost, committed redb transactions are durable (redb's atomic commit is trusted here)",
+                    "the writer task runs exactly where the explored history has a settle point, so every partition of the queued changes into writer batches is produced; the order of the single-key changes of one multi-key request is not fixed (hash order), so any subset of them is an admissible partial state",
+                    "the reference takes accepted/rejected from the flat-map model (C01) and folds the persisted actions; registrations are applied as at restart",
+                ],
+                "all sequences over {set, cset (matching and stale), delete, pdelete of one and of several keys, connect, grave-goods / last-will registration, disconnect, settle (writer runs)} up to the completed depth, each ended by a crash (drop of the runtime) or by a clean stop (flush), followed by a restore from the database file in a fresh runtime; distinct_nontrivial counts distinct (last step, outcome) classes",
             );
             std::fs::remove_dir_all(persist::scratch_root()).ok();
             code
